@@ -299,10 +299,16 @@ impl SweepReq {
         }
     }
     fn model_front(&self, cfg: &Cfg) -> String {
-        let outs: Vec<String> = self.outs.iter().map(|d| { let (a, b) = dest_truth(cfg, d, &self.wpath); format!("{}{}", a, b) }).collect();
+        // the outputs go to the model as script descriptors together with style, wallet path and allowlist: the facts
+        // can_spend / allowlist_contains are computed by the Lean wallet model (Model/Wallet.lean), not by the harness
+        // (`dest_truth` below stays the independent ground truth of the monitors)
+        let mut al: Vec<String> = cfg.allow.clone();
+        al.extend(cfg.xpubs.iter().map(|j| format!("x{}", j)));
+        let outs = format!("@{};{};{};{}", cfg.style, path_str(&self.wpath), if al.is_empty() { "-".to_string() } else { al.join(",") },
+            if self.outs.is_empty() { "-".to_string() } else { self.outs.iter().map(|d| d.to_string()).collect::<Vec<_>>().join(",") });
         format!("{} {} {} {} {} {} {}",
             if cfg.is_err(T_DEST) { 1 } else { 0 }, self.ver as u32, self.locktime, self.seqs.len(),
-            self.seqs.first().copied().unwrap_or(0), if outs.is_empty() { "-".to_string() } else { outs.join(",") }, self.input)
+            self.seqs.first().copied().unwrap_or(0), outs, self.input)
     }
 }
 
@@ -977,6 +983,9 @@ impl Group for C09Sweep {
     }
 }
 
+#[path = "c09_wire.rs"]
+mod wire;
+
 pub fn groups() -> Vec<Box<dyn Group>> {
-    vec![Box::new(C09Sweep)]
+    vec![Box::new(C09Sweep), Box::new(wire::C09Wire)]
 }
